@@ -219,6 +219,12 @@ func iterRand(seed, it int64) *rand.Rand {
 	return rand.New(rand.NewSource(int64(splitmix(uint64(seed)*0x2545F4914F6CDD1D+splitmix(uint64(it)+77)) >> 1)))
 }
 
+// boundaryBase: the first iteration of the boundary stream (a function of the tier only, so that parent, children
+// and a replay agree on it whatever n= says).
+func boundaryBase() int64 { return int64(vh.Pick(40000, 1200000)) }
+
+func g0(r *rand.Rand) *gen { return &gen{r: r} }
+
 func defaultTypes() []namedSrc {
 	return []namedSrc{{name: "@a", text: `1`}, {name: "@b", text: `"s"`}, {name: "@o", text: `{"o": 1}`}}
 }
@@ -296,6 +302,11 @@ func (cfg *config) makeInputs(it int64) (inputs, *rand.Rand) {
 		if stream == "corpus" && len(cfg.corpus) == 0 {
 			stream = "seed-mut"
 		}
+		// the boundary stream (boundary.go) has the iterations behind the ones of the other streams (run.go), which
+		// stay what they are without it
+		if it >= boundaryBase() {
+			stream = "boundary"
+		}
 	}
 	switch stream {
 	case "trunc-all":
@@ -326,6 +337,33 @@ func (cfg *config) makeInputs(it int64) (inputs, *rand.Rand) {
 		}
 		if r.Intn(2) == 0 {
 			mutSlot(r, &in, 1+r.Intn(2))
+		}
+	case "boundary":
+		// one rule value of an otherwise well-formed schema is a boundary value of its kind - in the root schema, or
+		// (one time in four each) in an added type, in the text of the enum rule; boundary documents
+		in = inputs{root: genBoundary(r), types: defaultTypes(), enumName: "@e", enum: `[1,2]`, regex: genRegex(r)}
+		switch r.Intn(8) {
+		case 0, 1:
+			in.root = g0(r).pick("{\n \"a\": @a,\n \"b\": @b | @o // {optional: true}\n}", "@a", "[@a, @b, @o]", "{ // {allOf: \"@o\"}\n \"a\": @a\n}", "1 // {or: [\"@a\", \"@b\", \"@o\"]}", "{\n \"a\": 1 // {type: \"@a\"}\n}")
+			in.types[r.Intn(len(in.types))].text = genBoundary(r)
+		case 2:
+			in.types[r.Intn(len(in.types))].text = genBoundary(r)
+		case 3:
+			in.types = in.types[:r.Intn(3)]
+		}
+		if r.Intn(4) == 0 {
+			in.enum = genBoundaryEnum(r)
+			if r.Intn(2) == 0 {
+				in.root = g0(r).pick("1 // {enum: @e}", "{\n \"e\": \"a\" // {enum: @e, optional: true}\n}", "[\n 1 // {type: \"enum\", enum: @e}\n]", "1 // {or: [{enum: @e}, \"string\"]}")
+			}
+		}
+		switch r.Intn(3) {
+		case 0:
+			in.doc = genBoundaryDoc(r)
+		case 1:
+			in.doc = pickMut(docSeeds)
+		default:
+			in.doc = "\x00example"
 		}
 	case "corpus":
 		in = cfg.fromCorpus(r, r.Intn(len(cfg.corpus)))
